@@ -421,6 +421,18 @@ def fixed_centres_oracle(run, c, lab, fields, step, replay):
                           "step %d column %s holds %r, the centre of bias b%d is %r" % (step, nm, got, b["id"], want), replay)
 
 
+def flag_history(c, vid, feat):
+    """value of an output flag of variable vid at each calc"""
+    on = [v for v in c["vars"] if v["id"] == vid][0].get(feat, False)
+    out = []
+    for ev in c["events"]:
+        if ev[0] == "step":
+            out.append(on)
+        elif ev[0] == "set" and ev[1] == "var" and ev[2] == vid and ev[3] == feat:
+            on = ev[4]
+    return out
+
+
 def live_biases(c, j):
     """the biases defined when calc j runs"""
     live = [dict(b) for b in c["biases"]]
@@ -460,15 +472,22 @@ def forces_energy_oracle(run, c, j, pos, lab, fields, step, replay, efh=None, fi
                 if not close(got, want, OTOL):
                     run.violation("trajfields:total-force", "step %d column ft_%s holds %r, the engine's force on the variable is %r"
                                   % (step, nm, got, want), replay)
-            elif j > 0 and not first_of_segment:
+            elif j > 0 and not first_of_segment and flag_history(c, v["id"], "tforce")[j - 1]:
                 # forces delivered one step late (documented for such engines): the line of step t carries the force exerted
-                # at the previous evaluation
+                # at the previous evaluation - available only if the total force of this variable was already being
+                # calculated at that evaluation (colvar::lagged_total_force_available)
                 want = float(efh[j - 1][v["id"]])
                 run.dist("oracle:total-force-lagged")
                 if not close(got, want, OTOL):
                     run.violation("trajfields:total-force-lagged", "step %d column ft_%s holds %r; with total forces delivered one step "
                                   "late it is the force exerted at the previous evaluation, %r (the force at this step is %r)"
                                   % (step, nm, got, want, float(efh[j][v["id"]])), replay)
+            elif j > 0 and not first_of_segment and not any(flag_history(c, v["id"], "tforce")[:j]):
+                # the total force was requested just before this evaluation: the engine has not delivered any yet
+                run.dist("oracle:total-force-lagged-first")
+                if not close(got, 0.0, OTOL):
+                    run.violation("trajfields:total-force-lagged-first", "step %d column ft_%s holds %r at the first evaluation after the "
+                                  "total force was requested (none can have been delivered)" % (step, nm, got), replay)
         mine = [b for b in live if v["id"] in b["vars"]]
         if "fa_" + nm in lab and lab.count("fa_" + nm) == 1 and all(simple(b) for b in mine):
             want = Fr(0)
